@@ -254,6 +254,24 @@ def correspondence(ctx: vf.Ctx, count: int):
             if mode < 0.6:
                 pl = sorted(pl)
             pltxt = fmt(pl)
+        # placeholders are kept out of the model comparison (finding C02-F5 is about them, checked separately below)
+        has_bar0 = any(g == 'barrier2' for g, _ in ops)
+        if has_bar0:
+            try:
+                raw = bool(model.is_compatible(circ, pl))
+            except Exception:  # noqa
+                raw = None
+            ops = [(g, l) for g, l in ops if g != 'barrier2']
+            circ = real_circ(w, ops)
+            try:
+                stripped = bool(model.is_compatible(circ, pl))
+            except Exception:  # noqa
+                stripped = None
+            ctx.count('compat_with_placeholder')
+            if stripped is True and raw is False:
+                ctx.violation(dict(call='is_compatible', symptom='placeholder_rejected'),
+                              dict(n=n, edges=es, gates=gs, width=w, ops=ops, placement=pl, barrier=True), True, raw,
+                              'is_compatible rejects an executable circuit because it contains a barrier placeholder')
         try:
             impl = 'T' if model.is_compatible(circ, pl) else 'F'
         except Exception:  # noqa
@@ -270,7 +288,7 @@ def correspondence(ctx: vf.Ctx, count: int):
             native = all(g in gs for g, _ in ops)
             coupled = all(tuple(sorted((plx[a], plx[b]))) in edges for g, loc in ops for a, b in itertools.combinations(loc, 2))
             indep = 'T' if native and coupled else 'F'
-            has_bar = any(g == 'barrier2' for g, _ in ops)
+            has_bar = False
             mono = all(plx[min(a, b)] <= plx[max(a, b)] for g, loc in ops for a, b in itertools.combinations(loc, 2))
             if impl != indep and not has_bar:
                 sig = dict(call='is_compatible', symptom='wrong_verdict', monotone_placement=mono)
@@ -386,6 +404,7 @@ def run(ctx: vf.Ctx):
     for js, r in zip(jobs, res):
         judge(ctx, js, r, 'supporting search')
     ctx.cov['compile_jobs'] = len(jobs)
+    ctx.cov['compile_runner'] = getattr(W.run_jobs, 'last_info', None)
     ctx.cov['compile_jobs_finished'] = sum(1 for r in res if r.get('ok'))
     ctx.cov['compile_seconds'] = [r.get('secs') for r in res if r.get('ok')]
 
